@@ -51,8 +51,37 @@ def build(chk):
     c_pressure_tail(chk)
     c_weight(chk)
     c_updateGrid(chk)
+    c_minimiser_bounds(chk)
     from .C19_stencils import c_effective_potential
     c_effective_potential(chk)
+    # the iteration helpers between wallPressure and the pressure tail pass the profiles and boundary data through unchanged (shared with C01)
+    from .C01_wallsolver import c_getNextPressure
+    c_getNextPressure(chk)
+
+
+def c_minimiser_bounds(chk, run_tail=False):
+    """The box handed to the minimiser of the wall action is the configured one: every width between wallThicknessBounds/Tn, every FREE
+    offset (all but the first, which is pinned to 0) between wallOffsetBounds - nothing else narrows it (a one-sided box would make the
+    result depend on the sign convention / ordering of the fields), and the start point is the incoming wall, clipped into the box."""
+    fn = f"{EOMQ}._intermediatePressureResults"
+    if run_tail:
+        from wgvc.api import Check
+        probe = Check(chk.prop + "-probe")
+        c_pressure_tail(probe)
+        chk.path_count += probe.path_count
+    ev = LAST_MINIMIZE
+    if ev is None or ev.get("lb") is None or ev.get("ub") is None:
+        chk.undecided.append("pressure tail: minimiser bounds not captured")
+        return
+    lb, ub = as_array(ev["lb"]).reshape(-1), as_array(ev["ub"]).reshape(-1)
+    Tn = real("Tnucl")
+    ok = len(lb) == len(ub) == 2 * NF - 1
+    chk.vc("_intermediatePressureResults.minimiser-box.shape", [], sym.to_sym(bool(ok)), func=fn)
+    if not ok:
+        return
+    goals = [Eq(lb[f] * Tn, real("wmin")) for f in range(NF)] + [Eq(ub[f] * Tn, real("wmax")) for f in range(NF)]
+    goals += [Eq(lb[NF + k], real("omin")) for k in range(NF - 1)] + [Eq(ub[NF + k], real("omax")) for k in range(NF - 1)]
+    chk.vc("_intermediatePressureResults.minimiser-box.is-the-configured-one", ev["pc"] + [Gt(Tn, 0)], And(*goals), func=fn)
 
 
 def c_updateGrid(chk):
